@@ -30,9 +30,16 @@ def main(argv):
     for a in argv:
         if a.startswith("-j"):
             jobs = int(a[2:])
+        elif a == "--relevant":
+            ids.append(a)
         else:
             ids.append(a)
     props = [c["property_id"] for c in json.load(open(os.path.join(HERE, "MANIFEST.json")))["checks"]]
+    # --relevant: only the checks whose property depends on the refactored area (a faster regression run)
+    relevant = {"codegen": ["C02", "C05", "C06", "C08"], "desugar": ["C01", "C02", "C03", "C10", "C15", "C16"], "frontend": ["C01", "C03", "C04", "C08", "C12", "C15", "C16"],
+                "outputs": ["C01", "C02", "C03", "C04", "C05"], "peephole": ["C04", "C06", "C07"], "runtime": ["C01", "C09", "C10", "C11", "C15"]}
+    only_relevant = "--relevant" in argv
+    ids = [a for a in ids if a != "--relevant"]
     todo = sorted(d for d in os.listdir(ROOT) if os.path.isdir(os.path.join(ROOT, d)) and (not ids or d in ids))
     bad = 0
     for rid in todo:
@@ -56,8 +63,11 @@ def main(argv):
                 lines = [l for l in r.stdout.splitlines() if l.startswith(("VIOLATION", "UNDECIDED", "CHECKER"))]
                 return p, dict(exit=r.returncode, seconds=round(time.time() - t0, 1), lines=[l[:300] for l in lines[:6]])
 
+            todo_props = [p for p in props if not only_relevant or p in relevant.get(rid.rsplit("-", 1)[0], props)]
             with cf.ThreadPoolExecutor(max_workers=jobs) as ex:
-                results = dict(ex.map(one, props))
+                results = dict(ex.map(one, todo_props))
+            if only_relevant and "checks_quick" in meta:
+                results = {**meta["checks_quick"], **results}
             meta.update(applies=True, checks_quick=results, false_alarms=[p for p, r in results.items() if r["exit"] not in (0,)],
                         undecided=[p for p, r in results.items() if any(l.startswith("UNDECIDED") for l in r["lines"])])
             json.dump(meta, open(meta_path, "w"), indent=1)
